@@ -113,6 +113,48 @@ def _mk_step_atomic(parent_missing):
     return S_atomic
 
 
+def _cli_run(fs, wmode, base_hash):
+    """Real `octave write` callback (cli.main.write) over the model FS; parse/emit stubbed.  -> result dict like the tools'."""
+    import pathlib
+
+    from harness.toolworld import make_doc
+    from octave_mcp.cli import main as cli
+    from octave_mcp.core import emitter, file_ops as m, parser
+    from vf.fsmodel import make_namespace
+
+    ns = make_namespace(fs)
+    m.os, m.tempfile, m.open, m.Path = ns.os, ns.tempfile, ns.open, ns.Path
+    m.validate_octave_path = lambda p: (True, None)
+    m.compute_hash = lambda c: "h:" + c
+    real = (pathlib.Path, parser.parse, emitter.emit)
+    pathlib.Path = ns.Path  # the callback does `from pathlib import Path` at call time
+    parser.parse = lambda c: make_doc()
+    emitter.emit = lambda d: "CANON"
+    try:
+        try:
+            cli.write.callback(TARGET, "K::v" if wmode == 0 else None, False, '{"K": 1}' if wmode == 1 else None, base_hash, None)
+            return {"status": "success"}
+        except SystemExit as e:
+            return {"status": "error" if e.code else "success"}
+    finally:
+        pathlib.Path, parser.parse, emitter.emit = real
+
+
+def _mk_step_cli(wmode):
+    def S_cli(state_i: int, bh: int, f1: int, k1: int) -> int:
+        """
+        pre: 0 <= state_i <= 2 and 0 <= bh <= 2 and 0 <= f1 <= 30 and 0 <= k1 <= 4
+        post: _ != 0
+        """
+        fs = _world(state_i, False)
+        init = fs.visible()
+        _sched(fs, f1, k1, 0, 0, 0)
+        r = _cli_run(fs, wmode, BH[bh])
+        return _judge_step(fs, init, r, state_i, bh, False, "CANON", False)
+
+    return S_cli
+
+
 # --- C17.b ---------------------------------------------------------------------------------------------------------
 def _in_narrow_window(fs, ext_step):
     """Family of the listed finding 'cas-window': B installs after A re-read the target (a read that follows A's
@@ -181,6 +223,8 @@ def obligations(tier):
     for pm in (False, True):
         obs.append(xh_ob(PROP, f"A.one-step[atomic_write_octave{',missing-parent' if pm else ''}]", _mk_step_atomic(pm), timeout=900, bound="pre-state absent/OLD/OTHER x base_hash none/current/other x one injected failure", functions=["core.file_ops.atomic_write_octave"], stubs=st,
                          witnesses=[("mkdir-then-error", {"state_i": 0, "bh": 0, "f1": 4, "k1": 0}, "atomic_write_octave whose mkstemp fails after mkdir(parents=True) returns status=error but leaves the created directories behind")] if pm else []))
+    for wm in (0, 1):
+        obs.append(xh_ob(PROP, f"A.one-step[cli-write,{WM[wm]}]", _mk_step_cli(wm), timeout=900, bound="`octave write` callback: pre-state absent/OLD/OTHER x base_hash none/current/other x one injected failure", functions=["cli.main.write", "core.file_ops.atomic_write_octave"], stubs=st + ["pathlib.Path -> model Path for the duration of the call"]))
     wit_cas = ("cas-window", {"ext_at": 0}, "two writers holding the same base_hash both succeed when the second installs between the first one's re-check and its os.replace (no lock; the re-check only narrows the window)")
     for api, wm in (("atomic", 0), ("tool", 0), ("tool", 1), ("tool", 2)):
         f = _mk_two_writers(wm, api)
